@@ -359,6 +359,83 @@ def check_mujoco_defaults(s):
             s.notes.append(f"C17.7 {cls}: reference parameters without a lerax counterpart: {missing}")
 
 
+# attributes that select / tune the numerical constraint solver, not the model: MJX has no PGS solver, so lerax's
+# humanoid assets name Newton where Gymnasium's name PGS; both solve the same constraint problem to tolerance
+SOLVER_ONLY = {("option", "solver")}
+
+
+def xml_canon(text, what):
+    """Canonical form of an MJCF document: (tag, sorted attributes with numbers normalised, children in order); comments and
+    whitespace are dropped, solver-selection attributes are ignored."""
+    import xml.etree.ElementTree as ET
+    try:
+        root = ET.fromstring(text)
+    except ET.ParseError as e:
+        raise AnalysisError(f"{what}: does not parse as XML: {e}") from e
+
+    def num(v):
+        toks = v.split()
+        out = []
+        for t in toks:
+            try:
+                out.append(repr(float(t)))
+            except ValueError:
+                out.append(t)
+        return " ".join(out)
+
+    def canon(el, path):
+        attrs = tuple(sorted((k, num(v)) for k, v in el.attrib.items() if (el.tag, k) not in SOLVER_ONLY))
+        return (el.tag, attrs, tuple(canon(c, path + "/" + el.tag) for c in el))
+
+    return canon(root, "")
+
+
+def xml_diff(a, b, path=""):
+    """First few differences between two canonical trees, as readable strings."""
+    out = []
+    here = f"{path}/{a[0]}"
+    if a[0] != b[0]:
+        return [f"{here}: element <{a[0]}> vs <{b[0]}>"]
+    da, db = dict(a[1]), dict(b[1])
+    nm = da.get("name") or da.get("joint") or ""
+    if nm:
+        here += f"[{nm}]"
+    for k in sorted(set(da) | set(db)):
+        if da.get(k) != db.get(k):
+            out.append(f"{here}@{k}: lerax {da.get(k)!r} vs Gymnasium {db.get(k)!r}")
+    if len(a[2]) != len(b[2]):
+        out.append(f"{here}: {len(a[2])} children vs {len(b[2])}")
+    for ca, cb in zip(a[2], b[2]):
+        out.extend(xml_diff(ca, cb, here))
+        if len(out) > 6:
+            break
+    return out
+
+
+def check_assets(s):
+    """C17.14: the MJCF model each MuJoCo environment loads by default is Gymnasium's model of the reference class's default."""
+    P = s.prog
+    for cls, gcls in MUJOCO.items():
+        lmod, ldef = lerax_defaults(P, cls)
+        gdef = gymref.init_defaults(gcls)
+        lx, gx = ldef.get("xml_file"), gdef.get("xml_file")
+        loc = s.loc(cls, "__init__")
+        if not (isinstance(lx, ast.Constant) and isinstance(lx.value, str) and isinstance(gx, ast.Constant) and isinstance(gx.value, str)):
+            raise AnalysisError(f"C17.14 {cls}: xml_file default is not a literal on both sides")
+        ltext = P.data_text(f"lerax/env/mujoco/assets/{lx.value}")
+        gtext = gymref.asset_text(gx.value)
+        if gtext is None:
+            raise AnalysisError(f"C17.14 {cls}: Gymnasium asset {gx.value} not found")
+        s.ob("C17.14", f"{cls}.asset", ltext is not None, f"the default asset {lx.value} exists in lerax/env/mujoco/assets", loc, key="asset-present")
+        if ltext is None:
+            continue
+        a, b = xml_canon(ltext, f"lerax asset {lx.value}"), xml_canon(gtext, f"Gymnasium asset {gx.value}")
+        diffs = [] if a == b else xml_diff(a, b)
+        s.ob("C17.14", f"{cls}.asset", a == b,
+             f"the model {lx.value} equals Gymnasium's {gx.value} element by element (bodies, joints, geoms, actuators, options; solver selection aside)", f"src/lerax/env/mujoco/assets/{lx.value}",
+             key="asset-model", detail="; ".join(diffs[:6]), necessary_for="transition dynamics, masses, gears, joint ranges and the integration timestep are the reference MDP's")
+
+
 def reads(node, base):
     """Field names F of all (attr base F) sub-nodes."""
     return {x[2] for x in walk(node) if isinstance(x, tuple) and x and x[0] == "attr" and x[1] == base}
@@ -504,7 +581,8 @@ def check(s):
     check_typestate(s)
     check_info_siblings(s)
     check_stage_b(s)
-    for r_, n_ in (("C17.1", 30), ("C17.2", 4), ("C17.3", 4), ("C17.4", 9), ("C17.5", 8), ("C17.7", 88), ("C17.8", 18), ("C17.9", 11), ("C17.10", 100), ("C17.11", 30),
+    check_assets(s)
+    for r_, n_ in (("C17.14", 22), ("C17.1", 30), ("C17.2", 4), ("C17.3", 4), ("C17.4", 9), ("C17.5", 8), ("C17.7", 88), ("C17.8", 18), ("C17.9", 11), ("C17.10", 100), ("C17.11", 30),
                    ("C17.12", 5), ("C17.13", 20)):
         s.floor(r_, n_)
 
